@@ -131,7 +131,9 @@ def check(ctx):
                 want = {'advanced', 'wrapped', 'state', 'recorded', 'actions', 'scheduled'}
             o1.witness((av, cyc, end))
             idx_part = {f for f in fl if f in ('advanced', 'wrapped')}
-            if idx_part != (want & {'advanced', 'wrapped'}) or [w for w in wrong if w.split('-')[0] in ('advanced', 'wrapped')]:
+            # an index that has not run past the end is its own remainder: wrapping it is optional there
+            ok_idx = idx_part == (want & {'advanced', 'wrapped'}) or (end == 'F' and av == 'T' and idx_part == {'advanced'})
+            if not ok_idx or [w for w in wrong if w.split('-')[0] in ('advanced', 'wrapped')]:
                 o1.fail(P, 'ActionScheduler._update_state', 'self._schedule_index = self._schedule_index + 1 ... %= len(self._schedule)',
                         f'with advance={av == "T"}, cyclical={cyc == "T"}, index past the end={end == "T"} the index steps are {sorted(idx_part) + wrong}; expected {sorted(want & {"advanced", "wrapped"})}',
                         file=c.mod.path, line=fn.lineno, path=res.path_lines(g.exit, st))
